@@ -304,4 +304,49 @@ theorem recvPushPromise_odd_promised (s : Streams) (id k : Nat) (h : HeadersIn) 
         dsimp only
         rcases hcr with hc | hc <;> simp [hc, hro]
 
+-- ===================================================================== DATA for a stream we have reset
+
+/-- **DATA in flight for a stream the endpoint has reset** (§5.4.2): `Recv::recv_data` only accounts
+    the octets against the connection window and hands them straight back (`ignore_data`); the
+    stream itself is not looked at any further -/
+theorem recvRecvData_after_local_reset (s : Streams) (k : Nat) (payload : Bytes) (eos : Bool)
+    (hsz : payload.length ≤ Generated.Consts.MAX_WINDOW_SIZE)
+    (hl : (s.stream k).state.isLocalError = true) :
+    s.recvRecvData k payload eos none = s.ignoreData (usizeAsU32 payload.length) := by
+  have h1 : ¬ Generated.Consts.MAX_WINDOW_SIZE < payload.length := by omega
+  simp [Streams.recvRecvData, hl, h1]
+
+/-- `ignore_data` touches nothing but the connection-level receive window bookkeeping -/
+theorem ignoreData_store (s : Streams) (sz : Nat) :
+    (s.ignoreData sz).1.store = s.store ∧ (s.ignoreData sz).1.counts = s.counts ∧
+    (s.ignoreData sz).1.actions.send = s.actions.send := by
+  have hp : ∀ (s : Streams) m, (s.panic m).store = s.store ∧ (s.panic m).counts = s.counts ∧
+      (s.panic m).actions.send = s.actions.send := by
+    intro s m; unfold Streams.panic; split <;> exact ⟨rfl, rfl, rfl⟩
+  have hn : ∀ (s : Streams), s.notifyTask.store = s.store ∧ s.notifyTask.counts = s.counts ∧
+      s.notifyTask.actions.send = s.actions.send := by
+    intro s; unfold Streams.notifyTask; split <;> exact ⟨rfl, rfl, rfl⟩
+  have hc : (s.consumeConnectionWindow sz).1.store = s.store ∧ (s.consumeConnectionWindow sz).1.counts = s.counts ∧
+      (s.consumeConnectionWindow sz).1.actions.send = s.actions.send := by
+    unfold Streams.consumeConnectionWindow
+    split
+    · exact ⟨rfl, rfl, rfl⟩
+    · split
+      · exact ⟨rfl, rfl, rfl⟩
+      · exact hp _ _
+      · exact ⟨rfl, rfl, rfl⟩
+  unfold Streams.ignoreData
+  rcases h : s.consumeConnectionWindow sz with ⟨s1, r⟩
+  rw [h] at hc
+  cases r with
+  | error e => exact hc
+  | ok u =>
+    dsimp only
+    unfold Streams.releaseConnectionCapacity
+    dsimp only
+    split
+    · obtain ⟨n1, n2, n3⟩ := hn (s1.modRecv fun r => { r with inFlightData := wrapSubU32 r.inFlightData sz, flow := (r.flow.assignCapacity sz).1 })
+      exact ⟨n1.trans hc.1, n2.trans hc.2.1, n3.trans hc.2.2⟩
+    · exact hc
+
 end H2V.Lemmas.ConnCtlP
